@@ -512,6 +512,45 @@ pub fn level3() -> Vec<Value> {
     out
 }
 
+/// every level-2 value and every 3rd level-3 value under one more constructor, plus all lists of three
+/// children drawn from the compound representatives and a few primitives (at least one compound)
+pub fn level4() -> Vec<Value> {
+    let mut out = vec![];
+    let wrap = |v: &Value| -> Vec<Value> {
+        vec![
+            Value::List(vec![v.clone()]),
+            Value::List(vec![Value::Uint(1), v.clone()]),
+            Value::List(vec![v.clone(), Value::String("z".into())]),
+            map(vec![(sym("k"), v.clone())]),
+            map(vec![(v.clone(), Value::Null)]),
+            map(vec![(sym("a"), Value::Uint(1)), (sym("b"), v.clone())]),
+            arr(vec![v.clone()]),
+            arr(vec![v.clone(), v.clone()]),
+            described(Descriptor::Code(0x99), v.clone()),
+            described(Descriptor::Name(Symbol("n:m".into())), v.clone()),
+        ]
+    };
+    for c in level2().iter() {
+        out.extend(wrap(c));
+    }
+    for c in level3().iter().step_by(3) {
+        out.extend(wrap(c));
+    }
+    let cr = compound_reps();
+    let prims = vec![Value::Null, Value::Uint(300), Value::String("hé".into()), sym("sy"), bin(2)];
+    let all: Vec<Value> = prims.iter().cloned().chain(cr.iter().cloned()).collect();
+    for a in &all {
+        for b in &all {
+            for c in &all {
+                if cr.contains(a) || cr.contains(b) || cr.contains(c) {
+                    out.push(Value::List(vec![a.clone(), b.clone(), c.clone()]));
+                }
+            }
+        }
+    }
+    out
+}
+
 /// The whole value corpus up to `depth` (0 = leaves only), simplest first.
 pub fn values(depth: usize) -> Vec<Value> {
     let mut out = leaves();
@@ -523,6 +562,9 @@ pub fn values(depth: usize) -> Vec<Value> {
     }
     if depth >= 3 {
         out.extend(level3());
+    }
+    if depth >= 4 {
+        out.extend(level4());
     }
     out
 }
